@@ -1,13 +1,8 @@
 #!/bin/bash
-# evaluation pass 5: third batch of seeded changes (C09 C16 C18 C20 C22 C27 C33 C34)
+# evaluation pass 6: third-batch misses after strengthening
 cd /verif
 run() { tools/run_seeded.sh "$@"; }
-run C20-dqff-fold-skips-ff-d-pin C20 C19
+run C16-ternary-branches-not-checked-against-each-other C16
 run C22-unsigned-keyword-translated-as-signed C22
 run C09-block-comment-regex-double-star-close C09
-run C16-ternary-branches-not-checked-against-each-other C16
-run C18-wide-mul-zero-word-skips-carry C18 C02
-run C27-check-mode-skips-dependency-outputs C27
-run C33-notready-fallback-single-comb-pass C33
-run C34-dut-reuse-nested-derived-clock-not-relocated C34 C34b
 echo ALLDONE
